@@ -104,6 +104,7 @@ func (tnc *TNC) Listen() (ln net.Listener, err error) {
 						ctrlIn:     tnc.in,
 						dataIn:     tnc.dataIn,
 						eofChan:    make(chan struct{}),
+						tncDone:    tnc.done,
 						isTCP:      tnc.isTCP,
 					}
 					tnc.connected = true
